@@ -40,6 +40,14 @@ var Kinds = []ast.Node{
 // Records: structs that are not nodes but hold nodes.
 var Records = []any{(*ast.StringLitEx)(nil), (*ast.DomainTextLitEx)(nil)}
 
+// Registry: the kinds of one tree family (XGo ast, or the toolchain's go/ast).
+type Registry struct {
+	kindOf map[reflect.Type]string // pointer type -> kind name
+	recOf  map[reflect.Type]string
+	exprT  reflect.Type
+	tokT   reflect.Type
+}
+
 var (
 	kindOf  = map[reflect.Type]string{} // pointer type -> kind name
 	typeOf  = map[string]reflect.Type{} // kind name -> pointer type
@@ -48,6 +56,8 @@ var (
 	nodeT   = reflect.TypeOf((*ast.Node)(nil)).Elem()
 	posT    = reflect.TypeOf(token.Pos(0))
 	tokT    = reflect.TypeOf(token.Token(0))
+	// XGo is the registry of github.com/goplus/xgo/ast
+	XGo = &Registry{kindOf: kindOf, recOf: recOf, exprT: exprT, tokT: tokT}
 )
 
 func init() {
@@ -131,12 +141,20 @@ func CheckRegistry(s *Structs) error {
 // Exporter assigns ids by pointer identity in export order (pre-order, declaration order,
 // every field) and renders trees in the line syntax.
 type Exporter struct {
+	reg   *Registry
 	ids   map[any]int
 	Nodes []ast.Node // by id
 	sb    strings.Builder
+	// ZeroIDs: print id 0 for every node.  ElideBodies: print the Body of a FuncDecl / FuncLit with an
+	// empty statement list (C37: the conversions never look into bodies).
+	// NilSlices: print a nil slice as "~" (otherwise nil and empty slices are both "[]").
+	ZeroIDs, ElideBodies, NilSlices bool
 }
 
-func NewExporter() *Exporter { return &Exporter{ids: map[any]int{}} }
+func NewExporter() *Exporter { return &Exporter{reg: XGo, ids: map[any]int{}} }
+
+// NewExporterFor exports trees of another registry (GoAST).
+func NewExporterFor(r *Registry) *Exporter { return &Exporter{reg: r, ids: map[any]int{}} }
 
 func (e *Exporter) ID(n ast.Node) (int, bool) {
 	id, ok := e.ids[n]
@@ -158,10 +176,10 @@ func isNilable(v reflect.Value) bool {
 }
 
 func (e *Exporter) node(pv reflect.Value, rec bool) {
-	name := kindOf[pv.Type()]
+	name := e.reg.kindOf[pv.Type()]
 	id := 0
 	if rec {
-		name = recOf[pv.Type()]
+		name = e.reg.recOf[pv.Type()]
 	} else {
 		key := pv.Interface()
 		old, ok := e.ids[key]
@@ -175,6 +193,9 @@ func (e *Exporter) node(pv reflect.Value, rec bool) {
 	e.sb.WriteByte('(')
 	e.sb.WriteString(name)
 	e.sb.WriteByte(' ')
+	if e.ZeroIDs {
+		id = 0
+	}
 	e.sb.WriteString(strconv.Itoa(id))
 	sv := pv.Elem()
 	st := sv.Type()
@@ -182,14 +203,26 @@ func (e *Exporter) node(pv reflect.Value, rec bool) {
 		e.sb.WriteByte(' ')
 		e.sb.WriteString(st.Field(i).Name)
 		e.sb.WriteByte('=')
-		e.value(sv.Field(i))
+		fv := sv.Field(i)
+		if e.ElideBodies && st.Field(i).Name == "Body" && (name == "FuncDecl" || name == "FuncLit") && fv.Kind() == reflect.Ptr && !fv.IsNil() {
+			b := fv.Elem()
+			bid := 0
+			if !e.ZeroIDs {
+				bid = len(e.Nodes)
+				e.ids[fv.Interface()] = bid
+				e.Nodes = append(e.Nodes, fv.Interface().(ast.Node))
+			}
+			fmt.Fprintf(&e.sb, "(BlockStmt %d Lbrace=p%d List=[] Rbrace=p%d)", bid, b.FieldByName("Lbrace").Int(), b.FieldByName("Rbrace").Int())
+			continue
+		}
+		e.value(fv)
 	}
 	e.sb.WriteByte(')')
 }
 
-func isNodeish(t reflect.Type) bool {
+func (e *Exporter) isNodeish(t reflect.Type) bool {
 	if t.Kind() == reflect.Ptr {
-		return kindOf[t] != ""
+		return e.reg.kindOf[t] != ""
 	}
 	return t.Kind() == reflect.Interface && t.NumMethod() > 0 && t.Implements(nodeT)
 }
@@ -200,7 +233,7 @@ func (e *Exporter) value(v reflect.Value) {
 	case t == posT:
 		e.sb.WriteString("p" + strconv.FormatInt(v.Int(), 10))
 		return
-	case t == tokT:
+	case t == e.reg.tokT:
 		e.sb.WriteString("t" + strconv.FormatInt(v.Int(), 10))
 		return
 	}
@@ -219,9 +252,9 @@ func (e *Exporter) value(v reflect.Value) {
 		switch {
 		case v.IsNil():
 			e.sb.WriteString("~")
-		case kindOf[t] != "":
+		case e.reg.kindOf[t] != "":
 			e.node(v, false)
-		case recOf[t] != "":
+		case e.reg.recOf[t] != "":
 			e.sb.WriteByte('<')
 			e.node(v, true)
 			e.sb.WriteByte('>')
@@ -235,13 +268,13 @@ func (e *Exporter) value(v reflect.Value) {
 		}
 		el := v.Elem()
 		switch {
-		case el.Kind() == reflect.Ptr && kindOf[el.Type()] != "" && t.NumMethod() > 0:
+		case el.Kind() == reflect.Ptr && e.reg.kindOf[el.Type()] != "" && t.NumMethod() > 0:
 			if el.IsNil() {
 				e.sb.WriteString("~")
 			} else {
 				e.node(el, false)
 			}
-		case el.Kind() == reflect.Ptr && recOf[el.Type()] != "" && !el.IsNil():
+		case el.Kind() == reflect.Ptr && e.reg.recOf[el.Type()] != "" && !el.IsNil():
 			e.sb.WriteByte('<')
 			e.node(el, true)
 			e.sb.WriteByte('>')
@@ -250,8 +283,12 @@ func (e *Exporter) value(v reflect.Value) {
 		}
 	case reflect.Slice:
 		el := t.Elem()
+		if e.NilSlices && v.IsNil() && (e.isNodeish(el) || el.Kind() == reflect.Slice || el.Kind() == reflect.Interface) {
+			e.sb.WriteString("~")
+			return
+		}
 		switch {
-		case isNodeish(el):
+		case e.isNodeish(el):
 			e.sb.WriteByte('[')
 			for i := 0; i < v.Len(); i++ {
 				if i > 0 {
@@ -260,7 +297,7 @@ func (e *Exporter) value(v reflect.Value) {
 				e.value(v.Index(i))
 			}
 			e.sb.WriteByte(']')
-		case el.Kind() == reflect.Slice && isNodeish(el.Elem()):
+		case el.Kind() == reflect.Slice && e.isNodeish(el.Elem()):
 			e.sb.WriteByte('[')
 			for i := 0; i < v.Len(); i++ {
 				if i > 0 {
@@ -284,7 +321,7 @@ func (e *Exporter) value(v reflect.Value) {
 				switch {
 				case pe.Kind() == reflect.String:
 					e.sb.WriteString("s" + hex.EncodeToString([]byte(pe.String())))
-				case pe.Kind() == reflect.Ptr && kindOf[pe.Type()] != "" && !pe.IsNil() && pe.Type().Implements(exprT):
+				case pe.Kind() == reflect.Ptr && e.reg.kindOf[pe.Type()] != "" && !pe.IsNil() && pe.Type().Implements(e.reg.exprT):
 					e.node(pe, false)
 				default:
 					e.sb.WriteString("o")
@@ -295,7 +332,7 @@ func (e *Exporter) value(v reflect.Value) {
 			e.sb.WriteString("o")
 		}
 	case reflect.Map:
-		if kindOf[t.Elem()] == "" || t.Key().Kind() != reflect.String {
+		if e.reg.kindOf[t.Elem()] == "" || t.Key().Kind() != reflect.String {
 			e.sb.WriteString("o")
 			return
 		}
@@ -427,4 +464,23 @@ func collect(v reflect.Value, path string, ctx int, out *[]ChildSlot) {
 			collect(v.MapIndex(k), fmt.Sprintf("%s[%d]", path, i), ctx, out)
 		}
 	}
+}
+
+func sameKinds(have map[string]bool, s *Structs) error {
+	var miss []string
+	for _, k := range s.NodeOrder {
+		if !have[k] {
+			miss = append(miss, "registry lacks "+k)
+		}
+	}
+	for k := range have {
+		if _, ok := s.Nodes[k]; !ok {
+			miss = append(miss, "struct table lacks "+k)
+		}
+	}
+	if len(miss) > 0 {
+		sort.Strings(miss)
+		return fmt.Errorf("%s", strings.Join(miss, "; "))
+	}
+	return nil
 }
